@@ -1,6 +1,6 @@
 (** C09 - equality and ordering are coherent and numerically exact across types. *)
 From Cel.Model Require Import Compare.
-From Cel.Proofs Require Import CompareProofs FloatOrder EqSymmetry.
+From Cel.Proofs Require Import CompareProofs FloatOrder EqSymmetry EqEquiv.
 From Coq Require Import QArith.
 Open Scope Z_scope.
 
@@ -122,6 +122,23 @@ Theorem C09_eq_symmetric : forall a b, nodup_maps a -> nodup_maps b ->
   v_eq a b = v_eq b a /\ v_ne a b = v_ne b a.
 Proof. intros a b Ha Hb. split; [now apply v_eq_sym|now apply v_ne_sym]. Qed.
 
+(** == is transitive on all values whose doubles are IEEE-754 doubles and whose maps hold each key
+    once ([good]) - an int, a uint and a double that are pairwise == denote one number; lists, maps
+    and function values inherit it - and reflexive on those that contain no NaN.  With the symmetry
+    above, == is an equivalence relation on NaN-free values (and 0u == 0 == -0.0 forces 0u == -0.0). *)
+Theorem C09_eq_transitive : forall a b c, good a -> good b -> good c ->
+  v_eq a b = true -> v_eq b c = true -> v_eq a c = true.
+Proof. exact v_eq_trans. Qed.
+
+Theorem C09_eq_reflexive : forall a, good a -> nan_free a -> v_eq a a = true.
+Proof. intros a [Hd Hv] Hn. now apply v_eq_refl_all. Qed.
+
+Example C09_ex_zero_chain :
+  good (VUInt 0) /\ good (VInt 0) /\ good (VDbl (S754_zero true)) /\ nan_free (VDbl (S754_zero true)) /\
+  v_eq (VUInt 0) (VInt 0) = true /\ v_eq (VInt 0) (VDbl (S754_zero true)) = true /\
+  v_eq (VUInt 0) (VDbl (S754_zero true)) = true /\ v_eq (VDbl S754_nan) (VDbl S754_nan) = false.
+Proof. unfold good. cbn. repeat split; try reflexivity; discriminate. Qed.
+
 Example C09_ex_sym_hyp : nodup_maps (VMap [(KInt 1, VList [VDbl S754_nan]); (KUint 1, VMap [])]) /\
   v_eq (VMap [(KInt 1, VInt 0)]) (VMap [(KUint 1, VInt 0)]) = false.
 Proof.
@@ -153,3 +170,5 @@ Print Assumptions C09_nan.
 Print Assumptions C09_minmax.
 Print Assumptions C09_max_intlike.
 Print Assumptions C09_eq_symmetric.
+Print Assumptions C09_eq_transitive.
+Print Assumptions C09_eq_reflexive.
